@@ -68,7 +68,10 @@ def docs():
             S["Event"] = obj({"when": {"type": "string"}, "count": {"type": "number"}, "note": {"type": "string"}}, required=["when", "count"])
             S["Dated"] = {"allOf": [{"$ref": REF + "Event"}, obj({"when": {"type": "string", "format": "date"}, "count": {"type": "integer"}})]}
             S["DatedRev"] = {"allOf": [obj({"when": {"type": "string", "format": "date"}, "count": {"type": "integer"}}), {"$ref": REF + "Event"}]}
-            for cn in ("Event", "Dated", "DatedRev"):
+            # a member that carries ONLY `required` applies to the schema's own / other members' properties
+            S["ReqOnly"] = {"type": "object", "properties": {"when": {"type": "string"}, "count": {"type": "integer"}, "note": {"type": "string"}}, "allOf": [{"required": ["when", "count"]}]}
+            S["ReqOnly2"] = {"allOf": [obj({"when": {"type": "string"}, "count": {"type": "integer"}, "note": {"type": "string"}}), {"required": ["when"]}, {"type": "object", "required": ["count"]}]}
+            for cn in ("Event", "Dated", "DatedRev", "ReqOnly", "ReqOnly2"):
                 expect[cn] = {"kind": "allof", "nullable": False, "sample": None, "default": None, "mandatory": ["when", "count"], "optional": ["note"]}
         params_paths = {}
         for kind, (base, sample, dflt) in BASES.items():
